@@ -2,6 +2,7 @@ import GstVerif.Grid.Driver
 import GstVerif.Poly.Driver
 import GstVerif.Db.Driver
 import GstVerif.LinAlg.Driver
+import GstVerif.Krig.Driver
 /-
   gstmodel: line-protocol driver.  One request per input line:
       <model> <op> <args…> => <implementation's answer…>
@@ -21,6 +22,7 @@ def dispatch (line : String) : String :=
   | "p" :: args => Poly.handle args impl
   | "d" :: args => Db.handle args impl
   | "m" :: args => LinAlg.handle args impl
+  | "k" :: args => Krig.handle args impl
   | _ => "bad-op"
 
 partial def loop (h : IO.FS.Stream) (out : IO.FS.Stream) : IO Unit := do
